@@ -81,7 +81,7 @@ def run(ctx):
     for name, line in viols:
         by_key.setdefault(key_for(name, line), (name, line))
     known = {k["key"] for k in vlib.load_known().get("findings", []) if k["property"] == "C14"}
-    for key, (name, line) in sorted(by_key.items()):
+    for key, (name, line) in sorted(vlib.limit_new(by_key, "C14").items()):
         case = dict(desc=line["desc"], pred=name, line=line)
         if key not in known and key not in rerun(ctx, case):
             raise vlib.Infra(f"violation {key} from {line['src']} did not reproduce in a fresh process")
